@@ -1670,6 +1670,10 @@ func takenTruth(p *DPath, iff *ssa.If) bool {
 		if x == b && i+1 < len(p.Blocks) {
 			return p.Blocks[i+1] == b.Succs[0]
 		}
+		if x == b && i+1 == len(p.Blocks) && p.Target != nil {
+			// the branch leads straight to the block the path stops at
+			return p.Target == b.Succs[0]
+		}
 	}
 	return false
 }
